@@ -500,11 +500,15 @@ def c01_pipe(ctx, p):
 def c01_pipe_jobs(tier, seed):
     rnd = random.Random(seed + 99)
     jobs = []
-    budget = 4 if tier == 'quick' else 6
     cfgs = [('base', {}), ('bad-offset', dict(tl_offset=list(b'+0:0'))), ('no-targets', dict(targets=[]))]
     for name, tpl in list(C01_EXTRA.items()) + list(STRUCT.items()) + list(JUNK.items()):
         extra = name in C01_EXTRA
-        vs = variants(tpl, budget, 3, rnd, (6 if extra else 2) if tier == 'quick' else (40 if extra else 12))
+        if tier == 'quick':
+            # the totality-specific templates get the larger share; the others are explored by C02..C19 as well (clean, list)
+            budget, limit = (4, 4) if extra else (3, 1)
+        else:
+            budget, limit = (6, 40) if extra else (6, 12)
+        vs = variants(tpl, budget, 3, rnd, limit)
         for sizes in vs:
             if sum(sizes) < min(budget, 2) and len(vs) > 2:
                 continue
